@@ -31,6 +31,7 @@ func nodeVal(n *node.Node) Val           { return Val{Canon: cv.Node(n), N: n} }
 func predVal(p *predicate.Predicate) Val { return Val{Canon: cv.Pred(p), P: p} }
 func timeVal(t time.Time) Val            { return Val{Canon: cv.Time(t), T: &t} }
 func strVal(s string) Val                { return Val{Canon: cv.Str(s), S: &s} }
+func objLit(l *literal.Literal) Val      { return Val{Canon: cv.Lit(l), L: l} }
 func objVal(o *triple.Object) Val {
 	if n, err := o.Node(); err == nil {
 		return nodeVal(n)
@@ -39,7 +40,7 @@ func objVal(o *triple.Object) Val {
 		return predVal(p)
 	}
 	l, _ := o.Literal()
-	return Val{Canon: cv.Lit(l), L: l}
+	return objLit(l)
 }
 
 // Env maps bindings to values.
